@@ -165,6 +165,6 @@ CHECKS["C16"] = {
 }
 CHECKS["C18"] = {
     "text": 'BoundedAttributes.__setitem__ is proved against a whole-view specification over the (key order, map) view: frozen -> TypeError and nothing changes; capacity 0 -> only the drop is counted; invalid value -> nothing changes; existing key -> replaced and moved to the end without a drop; full -> the OLDEST entry is evicted and the drop counted; every other key untouched; capacity never exceeded.  __delitem__, __init__ (filled through the same operation, frozen last), merge_in, copy (a copy), the value-cleaning rule and Resource.merge (other wins key by key, schema rule, neither operand modified) are proved likewise.',
-    "note": "OrderedDict is a trusted model (dict + key list with a representation invariant); the contracts cover stores of primitive values (sequence cleaning in _clean_attribute is outside the engine's subset; the store invariant allows sequences of primitives so that C08 covers them on the wire); Resource.create / the environment detector are not covered; plugin resources in Deep.start are merged in provider order (C20 contract); bytes subclasses are not modelled.",
+    "note": "OrderedDict is a trusted model (dict + key list with a representation invariant); the contracts cover stores of primitive values (sequence cleaning in _clean_attribute is outside the engine's subset; the store invariant allows sequences of primitives so that C08 covers them on the wire); Resource.create and the environment detector are covered at the level of which resources are merged in which order (their attribute contents follow from merge's contract by argument; the contents of the module-level built-in resource are a declared fact); plugin resources in Deep.start are merged in provider order (C20 contract); bytes subclasses are not modelled.",
 }
 NOT_APPLICABLE = {}
